@@ -9,6 +9,12 @@ import CapyV.Driver.C26
 import CapyV.Driver.C07
 import CapyV.Driver.C12
 import CapyV.Driver.C24
+import CapyV.Driver.C10
+import CapyV.Driver.C28
+import CapyV.Driver.C05
+import CapyV.Driver.C08
+import CapyV.Driver.C14
+import CapyV.Driver.C09
 open CapyV.Driver
 
 def dispatch (line : String) : String :=
@@ -25,6 +31,12 @@ def dispatch (line : String) : String :=
   | "C12" :: args => c12 args
   | "C13" :: args => c12 args
   | "C24" :: args => c24 args
+  | "C10" :: args => c10 args
+  | "C28" :: args => c28 args
+  | "C05" :: args => c05 args
+  | "C08" :: args => c08 args
+  | "C14" :: args => c14 args
+  | "C09" :: args => c09 args
   | _ => "bad-op"
 
 partial def loop (h : IO.FS.Stream) (out : IO.FS.Stream) : IO Unit := do
